@@ -171,10 +171,10 @@ def gen_nostart(pyrng, present, nmax=10):
 
 
 def gen_graded(pyrng):
-    """badly scaled (graded) operators A = D^-1 M D, D = diag(1 .. 10^k), k = 3..8, M well conditioned: huge upper triangle, tiny lower
+    """badly scaled (graded) operators A = D^-1 M D, D = diag(1 .. 10^k), k = 2..5, M well conditioned: huge upper triangle, tiny lower
     triangle and sub-diagonal of H, spectrum that of M.  arnoldi_eigs with max_iters >= n from e_1 or a random vector."""
     g = np.random.default_rng(pyrng.getrandbits(64))
-    n = int(g.integers(3, 9)); k = float(g.integers(3, 9))
+    n = int(g.integers(3, 9)); k = float(g.integers(2, 6))     # beyond 1e5 eig(H) itself (H is not graded any more) is only good to ~1e-4
     M = g.standard_normal((n, n)) + 2.0 * np.eye(n)
     D = np.logspace(0, k, n)
     A = (M * D[None, :]) / D[:, None]
